@@ -106,6 +106,44 @@ def read_grid(path):
     return num, txt, attrs
 
 
+def filehistory(req):
+    """entry point read_geqdsk on NAMED files in one interpreter: the sequence re-uses one path for different contents (a file edited and re-loaded,
+    a scratch name re-used in a scan) and reads one file twice; reports what each resulting equilibrium is"""
+    from hypnotoad.geqdsk._geqdsk import write as gwrite
+    from hypnotoad.cases import tokamak
+    wd = req["workdir"]
+    os.makedirs(wd, exist_ok=True)
+    out = []
+    for step in req["steps"]:
+        path = os.path.join(wd, step["file"])
+        with open(path, "w") as f:
+            gwrite(geqdsk_data(step["family"], step["sign"]), f)
+        with open(path, "rt") as f:
+            eq = tokamak.read_geqdsk(f, settings=dict(step.get("settings", {})), make_regions=False)
+        Rs, Zs = np.meshgrid(np.linspace(1.2, 1.8, 7), np.linspace(-0.5, 0.5, 9))
+        out.append(dict(o_point=[float(eq.o_point.R), float(eq.o_point.Z)], x_points=[[float(p.R), float(p.Z)] for p in eq.x_points],
+                        psi=[float(v).hex() for v in np.ravel(eq.psi(Rs, Zs))], psi_sep=[float(v) for v in np.ravel(eq.psi_sep)],
+                        fpol=[float(eq.fpol(v)).hex() for v in np.linspace(eq.psi_axis, eq.psi_sep[0], 5)], geqdsk_input_digest=digest(np.frombuffer(eq.geqdsk_input.encode(), dtype=np.uint8)) if getattr(eq, "geqdsk_input", None) else None,
+                        file_digest=digest(np.frombuffer(open(path).read().encode(), dtype=np.uint8))))
+    print("@@JSON " + json.dumps(out))
+
+
+def geqdsk_data(family, sign):
+    r1d, z1d, psi2d, psi1d, fpol1d, pressure = arrays_for(family, sign)
+    n = len(r1d)
+    import crit
+    g, h = crit.analytic_funcs(family, sign)
+    cps = crit.find_all(g, h, (1.25, 1.75, -0.45, 0.45), n=10)
+    ax = min((p for p in cps if p[2] == "O"), key=lambda p: abs(p[1]))
+    pa = float(analytic.psi(family, ax[0], ax[1], sign))
+    px = min((float(analytic.psi(family, p[0], p[1], sign)) for p in cps if p[2] == "X"), key=lambda v: abs(v - pa))
+    wall = [(1.2, -0.5), (1.2, 0.5), (1.8, 0.5), (1.8, -0.5)]
+    return dict(nx=n, ny=n, rdim=1.0, zdim=1.4, rcentr=1.5, rleft=1.0, zmid=0.0, rmagx=ax[0], zmagx=ax[1], simagx=pa, sibdry=px, bcentr=2.0 / 1.5, cpasma=1.0e5,
+                fpol=np.linspace(2.0, 2.3, n), pres=1000.0 * np.linspace(1.0, 0.05, n), ffprime=np.zeros(n), pprime=np.zeros(n), psi=psi2d, qpsi=np.linspace(1.0, 4.0, n),
+                rbdry=np.array([1.4, 1.6, 1.6, 1.4]), zbdry=np.array([-0.1, -0.1, 0.1, 0.1]), rlim=np.array([w[0] for w in wall]), zlim=np.array([w[1] for w in wall]),
+                nbdry=4, nlim=4)
+
+
 def roundtrip(req):
     import yaml
     from hypnotoad.geqdsk._geqdsk import write as gwrite
@@ -222,6 +260,6 @@ def history(req):
 if __name__ == "__main__":
     mode = sys.argv[1]
     req = json.load(sys.stdin)
-    {"sideeffects": sideeffects, "roundtrip": roundtrip, "history": history}[mode](req)
+    {"sideeffects": sideeffects, "roundtrip": roundtrip, "history": history, "filehistory": filehistory}[mode](req)
     sys.stdout.flush()
     os._exit(0)
